@@ -6,7 +6,7 @@ CONSTANTS
   MaxDepth = 8
   FileSeq <- Seq3
   MaxStmts = 3
-  GenKinds = {"use", "forward", "import", "loadcss"}
+  GenKinds = {"use", "forward"}
   GenSpellings = {"plain", "dot", "dd", "ext"}
   DevChoices <- DevIdeal
   MaxFaultAt = 0
